@@ -28,6 +28,10 @@ pub mod model {
     pub static mut LOG_IN: [[u8; CAP]; LOGN] = [[0u8; CAP]; LOGN];
     pub static mut LOG_LEN: [usize; LOGN] = [0; LOGN];
     pub static mut LOG_N: usize = 0;
+    /// Input of the hasher currently being fed (hypercore never interleaves two hashers): kept in a
+    /// global instead of inside the hasher value so that moving/cloning a hasher does not copy
+    /// CAP bytes (symbolic execution cost), and not touched at all in plain FOLD mode.
+    pub static mut CUR: [u8; CAP] = [0u8; CAP];
 
     pub fn reset() {
         unsafe {
@@ -54,8 +58,9 @@ pub mod model {
         unsafe { (&LOG_IN[i], LOG_LEN[i]) }
     }
 
-    pub(crate) fn finalize(buf: &[u8; CAP], len: usize, fold: &[u8; 32], out: &mut [u8]) {
+    pub(crate) fn finalize(len: usize, fold: &[u8; 32], out: &mut [u8]) {
         unsafe {
+            let buf = &CUR;
             if RECORD {
                 assert!(LOG_N < LOGN, "blake2 model: log capacity exceeded (stated bound)");
                 LOG_IN[LOG_N] = *buf;
@@ -107,7 +112,6 @@ pub mod model {
 
 #[derive(Clone)]
 pub struct Blake2b<N> {
-    buf: [u8; model::CAP],
     len: usize,
     fold: [u8; 32],
     _n: PhantomData<N>,
@@ -121,7 +125,7 @@ impl<N> Default for Blake2b<N> {
     fn default() -> Self {
         let mut fold = [0u8; 32];
         fold[0] = 0xB2;
-        Blake2b { buf: [0u8; model::CAP], len: 0, fold, _n: PhantomData }
+        Blake2b { len: 0, fold, _n: PhantomData }
     }
 }
 impl<N> Blake2b<N> {
@@ -132,7 +136,7 @@ impl<N> Blake2b<N> {
             let p = self.len;
             if keep {
                 assert!(p < model::CAP, "blake2 model: input longer than CAP (stated bound)");
-                self.buf[p] = data[i];
+                unsafe { model::CUR[p] = data[i] };
             }
             // fold: position-dependent xor/rotate into bytes 1..32; byte 0 stays 0xB2 (never blank)
             let slot = 1 + (p % 31);
@@ -152,7 +156,7 @@ impl<N> Update for Blake2b<N> {
 }
 impl<N: ArrayLength<u8> + 'static> FixedOutput for Blake2b<N> {
     fn finalize_into(self, out: &mut Output<Self>) {
-        model::finalize(&self.buf, self.len, &self.fold, out.as_mut_slice());
+        model::finalize(self.len, &self.fold, out.as_mut_slice());
     }
 }
 impl<N> HashMarker for Blake2b<N> {}
@@ -188,6 +192,6 @@ impl<N> Update for Blake2bMac<N> {
 }
 impl<N: ArrayLength<u8> + 'static> FixedOutput for Blake2bMac<N> {
     fn finalize_into(self, out: &mut Output<Self>) {
-        model::finalize(&self.inner.buf, self.inner.len, &self.inner.fold, out.as_mut_slice());
+        model::finalize(self.inner.len, &self.inner.fold, out.as_mut_slice());
     }
 }
